@@ -17,7 +17,7 @@ PENDING = "static check designed in DESIGN.md section 3 but not built yet; not c
 CHECKS = {
  "C06": dict(level="other", technique="IR path enumeration with position-aware phi resolution over the ctx layer (typestate of the handed-back context), CFG gating analysis and store-provenance classification in the assembly managers",
    text="PARTIAL. Decided: (R06.1) every non-NULL context returned by each of the 23 <algo>_ctx_mgr_resubmit functions had a status without the PROCESSING bit stored into it as the last action, with no manager call in between; (R06.2) COMPLETE is stored only under (status & COMPLETE), PROCESSING|COMPLETE only under (status & LAST) and followed by the submit of the padding job; (R06.3) each SIMD _ctx_mgr_flush returns NULL only on the edge 'manager flush returned NULL' and otherwise resubmit's checked non-NULL result, and each of the 23 assembly flush managers reaches its NULL return only through branches on the manager's occupancy fields, storing nothing to the manager on the way; (R06.4) nothing in the library stores to user_data and every store in the manager assembly goes to its stack, its arguments or a job pointer from the lane table, never through a data pointer. NOT decided: exactly-once hand-back and lane-count bounds (lane-stack encodings and data-dependent lane indices in assembly).",
-   note="Structural necessary conditions of the job life-cycle at the ctx layer. 48 stores in 8 flush managers follow a call to *_opt_x1 whose summary cannot prove rdi preserved; they are counted, not judged.",
+   note="Structural necessary conditions of the job life-cycle at the ctx layer. Every store of the manager assembly has a known provenance (the *_opt_x1 kernels are summarised per call-site context).",
    ref="3/C06"),
  "C08": dict(level="other", technique="pointer-provenance abstract interpretation of object code against argument roles derived from the wrappers' prototypes; constant opmask tracking for masked loads; IR edge-dominance for the rolling-hash window",
    text="PARTIAL. Decided for all 143 AES CPU-specific entry points: no store's address derives solely from an argument whose pointee is const in the wrapper's prototype (keys, schedules, IV, tweak, AAD, input) - 'inputs are never modified'; every load at a constant offset from a fixed-extent input stays within its extent (GCM IV 12 bytes incl. masked 16-byte loads whose constant opmask selects 12, XTS tweak 16, raw keys 16/24/32, key schedules 16*(Nr+1), GCM key data = sizeof the struct) and such inputs are never register-indexed; in _rolling_hash2_run the look-back addresses buffer-w are formed only after the window has been filled. NOT decided: bounds of variable-length buffers (all len mod 16/64 tails), reads of the GHASH key-power table at a computed index, the hash/multi-hash kernels' data reads.",
